@@ -185,3 +185,19 @@ Definition ieee_value (mb eb bits : Z) : frac :=
   let man := if E =? 0 then M else M + 2 ^ mb in
   let ex := (if E =? 0 then 1 else E) - (2 ^ (eb - 1) - 1) - mb in
   scaled 2 (if neg then - man else man) ex 1.
+
+(** x = N/d (d > 0, N <> 0) rounded to the IEEE binary format with mb mantissa bits and eb exponent
+    bits, ties to even, through the shared [spec_round]: p = mb + 1 digits in the normal range,
+    fixed point (exponent emin) below it; None = overflow to infinity.  Used by the oracle to
+    re-check [ieee_interval_spec] on every case (end points included iff they round to the float). *)
+Definition ieee_round (mb eb : Z) (x : frac) : option frac :=
+  let N := fst x in let d := snd x in
+  let bias := 2 ^ (eb - 1) - 1 in
+  let emin := 1 - bias - mb in
+  let k0 := ndigits 2 (Z.abs N) - ndigits 2 d in
+  let le_pow k := if 0 <=? k then d * 2 ^ k <=? Z.abs N else d <=? Z.abs N * 2 ^ (- k) in
+  let k := if le_pow k0 then k0 else k0 - 1 in
+  let e := Z.max (k - mb) emin in
+  let r := if 0 <=? e then spec_round MHalfEven N (d * 2 ^ e) else spec_round MHalfEven (N * 2 ^ (- e)) d in
+  let v := scaled 2 r e 1 in
+  if 2 ^ (bias + 1) * snd v <=? Z.abs (fst v) then None else Some v.
